@@ -189,5 +189,34 @@ def run(ctx):
 
 def replay(ctx, path):
     case = json.load(open(path))
-    print(json.dumps(case, indent=1)[:2500])
+    comps = {f: drive.get_compiler(f) for f in ("stmt", "exec")}
+    envs = {f: prog.Env(comps[f]) for f in comps}
+    _JOB.update(comps=comps, envs=envs, budget=256, extra_slots=[("usr", 32, "input")])
+    if "program" in case:
+        for s_ in space("thorough"):
+            if s_.text == case["program"]:
+                r = prog_work(s_)
+                print(json.dumps(r, indent=1, default=str)[:2500])
+                if r["status"] in ("differ", "acceptance-differs", "unreadable"):
+                    print("VIOLATION property=%s replay=%s" % (ctx.pid, path))
+                    return 1
+                return 0
+        print("program not in the space any more")
+        return 0
+    name = case.get("part", case.get("insn", "")).split("#")[0]
+    pi = int(case["part"].split("#")[1]) if "part" in case else 0
+    beh, _pc = corpus.parsed_corpus(ctx.seed)
+    a = corpus.compile_corpus("stmt", ctx.seed, names=[name])[name]
+    b = corpus.compile_corpus("exec", ctx.seed, names=[name])[name]
+    if a[0] != "ok" or b[0] != "ok":
+        print("acceptance:", a[:2], b[:2])
+        if (a[0] == "ok") != (b[0] == "ok"):
+            print("VIOLATION property=%s replay=%s" % (ctx.pid, path))
+            return 1
+        return 0
+    r = corpus_work((name, pi, beh[name][pi], {"stmt": a[1]["rzil"][pi], "exec": b[1]["rzil"][pi]}, {"stmt": a[1]["meta"][pi], "exec": b[1]["meta"][pi]}))
+    print(json.dumps(r, indent=1, default=str)[:2500])
+    if r["status"] != "equal" or r.get("meta_differs") or r.get("static"):
+        print("VIOLATION property=%s replay=%s" % (ctx.pid, path))
+        return 1
     return 0
